@@ -24,7 +24,12 @@ Inductive stmt :=
 | SClear                                       (* m = make(...), clear(m) *)
 | SIf (c : exp) (t e : stmt)
 | SForArgs (x : nat) (body : stmt)             (* for _, x := range <the variadic parameter> *)
-| SReturn (es : list exp).
+| SReturn (es : list exp)
+(* slices of keys / values (Keys, Values): slice locals live in their own name space *)
+| SMakeSlice (x : nat)                         (* x := make([]T, 0[, pure capacity hint]) *)
+| SAppend (x : nat) (e : exp)                  (* x = append(x, e) *)
+| SRangeMap (kx vx : option nat) (body : stmt) (* for kx, vx := range m; the generator rejects bodies that write the map *)
+| SReturnSlice (x : nat).                      (* return x   (encoded as length :: elements) *)
 
 (* n_args: number of non-variadic parameters; variadic: has a `keys ...K` parameter *)
 Record method := { n_args : nat; variadic : bool; m_body : stmt }.
